@@ -14,7 +14,16 @@ Reading guide: `validateSpec cfg skip` is the stateless reading of the 34 restri
 a snapshot; `validateImpl regs cfg skip` is what `RestrictionService.validate` computes from the 15
 registers that a message history left behind.  The per-item checks of the register-based
 restrictions and the 19 register-free restrictions are the same definitions on both sides (they are
-tied to the code by the correspondence run and by the regenerated tables below, not by a theorem). -/
+tied to the code by the correspondence run and by the regenerated tables below, not by a theorem).
+
+Full statement over histories of public API calls:
+  `∀ ops skip, validate (run ops) skip = validateSpec (config (run ops)) skip`.
+The layer "API call ↦ published messages" (containers, `MsgHelper`, effect status) is the world model
+of C01 and is not rebuilt here; it enters through its two consequences, which are hypotheses below:
+`WFHist` (the message stream respects the load / state / effect protocol) and `Agree μ cfg` (the
+stream and the public snapshot describe the same loaded items, states and running effects).  Both are
+decidable and are checked by the model on every step of every history the correspondence run
+observes on a real `Fit`. -/
 namespace Eos.C03
 open Eos.Restr Eos.Toggle
 
